@@ -103,8 +103,61 @@ pub fn check(c: &Case) -> CheckResult {
         .class_if(s.commit_errors > 0, "commit_error"))
 }
 
+fn small_put() -> impl Strategy<Value = Op> {
+    (any::<u32>(), 1u32..300, 0i64..50).prop_map(|(seed, len, ts)| Op::Put(PutSpec::simple(gen::Payload::Blob { seed, len, kind: gen::BlobKind::NonUtf8 }, ts)))
+}
+
+fn blob_put(lo: u32, hi: u32) -> impl Strategy<Value = Op> {
+    (any::<u32>(), lo..hi, 0i64..50).prop_map(|(seed, len, ts)| Op::Put(PutSpec::simple(gen::Payload::Blob { seed, len, kind: gen::BlobKind::Random }, ts)))
+}
+
+/// Structured histories aimed at the two byte-exact corners of the embedded log that random
+/// histories reach too rarely:
+///  (a) the write head parked within 48 bytes of the region end (log-filler put), followed by
+///      every continuation: commit or not, reopen / kill-reopen or not, further puts, commit, reopen;
+///  (b) the head moved away from 0 by committed puts, a small put left pending, then a put too
+///      large to fit behind the head even after the region has grown.
+pub fn corner_strategy() -> impl Strategy<Value = Case> {
+    let a = (
+        prop::collection::vec(prop_oneof![3 => small_put(), 1 => Just(Op::Commit)], 0..5),
+        (prop_oneof![0u8..4, 0u8..64, 40u8..56], any::<u32>()),
+        prop::collection::vec(prop_oneof![Just(Op::Commit), Just(Op::Reopen), Just(Op::CrashReopen)], 0..3),
+        prop::collection::vec(prop_oneof![4 => small_put(), 1 => any::<u16>().prop_map(|target| Op::Delete { target }), 1 => Just(Op::Commit)], 1..4),
+        prop::collection::vec(prop_oneof![Just(Op::Commit), Just(Op::Reopen), Just(Op::CrashReopen)], 0..3),
+    )
+        .prop_map(|(pre, (d, seed), mid, post, tail)| {
+            let mut ops = pre;
+            ops.push(Op::Put(PutSpec::simple(gen::Payload::LogFill { d, seed }, 7)));
+            ops.extend(mid);
+            ops.extend(post);
+            ops.extend(tail);
+            Case { dim: 2, ops }
+        });
+    let b = (
+        prop::collection::vec((blob_put(4_000, 30_000), prop::bool::weighted(0.8)), 1..4),
+        prop::collection::vec(small_put(), 1..3),
+        blob_put(60_000, 260_000),
+        prop::collection::vec(prop_oneof![Just(Op::Commit), Just(Op::Reopen), Just(Op::CrashReopen), small_put()], 0..3),
+    )
+        .prop_map(|(pre, pending, big, tail)| {
+            let mut ops = Vec::new();
+            for (p, commit) in pre {
+                ops.push(p);
+                if commit {
+                    ops.push(Op::Commit);
+                }
+            }
+            ops.extend(pending);
+            ops.push(big);
+            ops.extend(tail);
+            Case { dim: 2, ops }
+        });
+    prop_oneof![a, b]
+}
+
 pub fn build(ctx: &Ctx) -> Vec<Box<dyn Arm>> {
     ctx.rule("histories over Put(payload recipes incl. log-filler sizes aimed d<64 bytes before the log region end)/PutEmb/Update(±payload)/Delete/Commit/Reopen(drop commits)/CrashReopen(file snapshot taken while the handle is alive, reopened => log replay); oracle = reference model of acknowledged documents compared with the frame table (count, ids, uri, status, supersession links, chunk structure) after every commit point and contents on materialisation, after every reopen and after a final reopen; non-trivial = >= 3 mutating ops and (automatic checkpoint or log growth or replay of pending records on open)");
+    ctx.rule("arm log_corners: structured histories aimed at (a) a log-filler put that parks the write head within 48 bytes of the region end followed by every continuation (commit or not, reopen / kill-reopen or not, more puts, commit, reopen) and (b) committed puts that move the head away from 0, a small put left pending, then a put (60..260 KB) too large to fit behind the head even after the region has grown");
     ctx.assume("a commit point materialises all acknowledged operations; the number of chunk frames of a document is validated a posteriori, not predicted");
     ctx.assume("a put/commit that returns Err is not acknowledged: the history stops there (class aborted_on_api_error) and is not a C01 violation; Memvid::open failing after acknowledged operations is");
     let t = ctx.tier;
@@ -115,5 +168,6 @@ pub fn build(ctx: &Ctx) -> Vec<Box<dyn Arm>> {
         t.pick(60, 200),
         move || strategy(t.pick(30, 120), t.pick(48 * 1024, 512 * 1024), t.pick(9000, 60000), true),
         check,
-    )]
+    ),
+    arm_with("log_corners", t.pick(96, 1500), 8, t.pick(60, 200), corner_strategy, check)]
 }
